@@ -518,7 +518,14 @@ def buffer_inv_pred(sc, tree, ph, txt):
             arg = call.args[0]
             if _is_concat_of_buffer(arg):
                 if dynamic:
-                    continue  # decided by the run-time flag (assumption M: equals the static flag in a non-volatile frame)
+                    # The pieces of the buffer were escaped by the COMPILE-TIME flag unless the frame is volatile, so only a volatile
+                    # frame may leave the decision to the run-time flag: a parent template compiled without escaping runs on the
+                    # context of an autoescaped child (hunt h2/C15_1).
+                    if not holds(sc, VOLATILE):
+                        fails.append(f"[runtime-flag-wrapper:{vis}] concat(buffer) is marked safe by the run-time flag context.eval_ctx.autoescape although the frame is "
+                                     f"not (known to be) volatile: its pieces were escaped by the compile-time flag, which differs when the template is the parent of a child "
+                                     f"with another autoescape decision")
+                    continue
                 if not holds(sc, z3.And(AUTOESCAPE, z3.Not(VOLATILE))):
                     fails.append(f"[markup-unguarded:{vis}] Markup(concat(buffer)) is emitted unconditionally although the frame is "
                                  f"{'volatile' if not holds(sc, z3.Not(VOLATILE)) else 'not autoescaped'}: the buffer's pieces were not escaped")
@@ -1256,6 +1263,8 @@ class FlowTask(VC):
 
     def finding_key(self, res):
         w = res.witness or {}
+        if self.clause == "markup_preserved" and self.subject == "format" and "cfg" in w:
+            return "plain-format-string,markup-argument" if w["cfg"]["s"] == "P" else cfg_key(w["cfg"])
         return cfg_key(w["cfg"]) if "cfg" in w else "no-witness"
 
     def replay(self, w):
@@ -1277,6 +1286,12 @@ def native_markup_preserved(w):
         r = F.sync_do_join(ctx, [mk(k, "&lt;i%d&gt;" % i) for i, k in enumerate(c["items"])], mk(c["d"], "&amp;"))
     elif f == "replace":
         r = F.do_replace(ctx, mk(c["s"], "&lt;s&gt; x"), mk(c["old"], "x"), mk(c["new"], "&lt;n&gt;"))
+    elif f == "format":
+        vals = [mk(k, "&lt;a%d&gt;" % i) for i, k in enumerate(c["args"])]
+        if c["mode"] == "args":
+            r = F.do_format(mk(c["s"], "[" + "%s" * len(vals) + "]"), *vals)
+        else:
+            r = F.do_format(mk(c["s"], "[" + "".join(f"%(k{i})s" for i in range(len(vals))) + "]"), **{f"k{i}": v for i, v in enumerate(vals)})
     else:
         return (None, f"no native replay for {f}")
     bad = not hasattr(r, "__html__")
@@ -2215,6 +2230,14 @@ def native_block_family(w=None):
                     lk = leaks(out)
                     if lk:
                         problems.append(f"Environment(autoescape={mode == 'static'}).from_string({src!r}).render(v='<v&>', x=True) == {out!r}: raw {lk}")
+    if chosen == ["set"]:
+        # hunt h2/C15_1: a set block of a parent compiled without escaping, run on the context of an autoescaped child
+        from jinja2 import select_autoescape
+        env = Environment(autoescape=select_autoescape(), loader=DictLoader({
+            "base.txt": "{% set x %}[{{ v }}]{% endset %}{% block b %}{% endblock %}", "page.html": '{% extends "base.txt" %}{% block b %}{{ x }}{% endblock %}'}))
+        out = env.get_template("page.html").render(v='<script a="1">&')
+        if leaks(out):
+            problems.insert(0, f"select_autoescape(): page.html extends base.txt ({{% set x %}}[{{{{ v }}}}]{{% endset %}}) and prints {{{{ x }}}}: {out!r}, raw {leaks(out)} in an html template")
     return (bool(problems), "; ".join(problems[:3]) or f"{'/'.join(chosen)} family (static, block and run-time decided autoescape): nothing raw in the output")
 
 
